@@ -309,29 +309,32 @@ Definition py_int_base (lim : Z) (base : Z) (l : list Z) : s2n :=
          | Some v => if negb (pow2_base base) && (lim <? Z.of_nat (List.length l)) then S2N_TooLong else S2N v
          end
   end.
-Definition in_codes (c : Z) (s : string) : bool := zmem c (codes s).
+(* character tests by code (no strings here: these definitions are extracted) *)
+Definition is_xX (c : Z) : bool := (c =? 120) || (c =? 88).
+Definition is_oO (c : Z) : bool := (c =? 111) || (c =? 79).
+Definition is_bB (c : Z) : bool := (c =? 98) || (c =? 66).
+Definition is_lL (c : Z) : bool := (c =? 108) || (c =? 76).
 (* int(text, 0): prefix selects the base; a decimal text with a leading zero must be all zeros *)
 Definition py_int_base0 (lim : Z) (l : list Z) : s2n :=
   match l with
   | 48 :: c :: t =>
-      if in_codes c "xX" then py_int_base lim 16 t
-      else if in_codes c "oO" then py_int_base lim 8 t
-      else if in_codes c "bB" then py_int_base lim 2 t
+      if is_xX c then py_int_base lim 16 t
+      else if is_oO c then py_int_base lim 8 t
+      else if is_bB c then py_int_base lim 2 t
       else if forallb (fun d => d =? 48) (c :: t) then S2N 0 else S2N_BadDigit
   | _ => py_int_base lim 10 l
   end.
 (* Utils.strip_py2_long_suffix *)
 Definition strip_py2_long_suffix (l : list Z) : list Z :=
-  match rev l with c :: t => if in_codes c "lL" then rev t else l | [] => l end.
-(* Utils.str_to_number on a text without sign.  guard = the proposed repair is irrelevant here:
-   the function itself is unchanged, the parser checks its result (see p_int_literal_ok) *)
+  match rev l with c :: t => if is_lL c then rev t else l | [] => l end.
+(* Utils.str_to_number on a text without sign *)
 Definition str_to_number (lim : Z) (v : list Z) : s2n :=
   match v with
   | [] | [_] => py_int_base0 lim v
   | 48 :: c :: t =>
-      if in_codes c "xX" then py_int_base lim 16 (match strip_py2_long_suffix v with _ :: _ :: r => r | r => r end)
-      else if in_codes c "oO" then py_int_base lim 8 t
-      else if in_codes c "bB" then py_int_base lim 2 t
+      if is_xX c then py_int_base lim 16 (match strip_py2_long_suffix v with _ :: _ :: r => r | r => r end)
+      else if is_oO c then py_int_base lim 8 t
+      else if is_bB c then py_int_base lim 2 t
       else py_int_base lim 8 v
   | _ => py_int_base0 lim v
   end.
